@@ -125,3 +125,23 @@ Check (C19_nispm_hidden_responses_masked :
      forall k, (k < length U')%nat ->
        (2 ^ 64 <= nth k (nm_s1 p) 0 / c - nth (N.to_nat (nth k U' 0%N)) msgs 1)%Z)).
 Print Assumptions C19_nispm_hidden_responses_masked.
+
+(* ... and for the trusted-party proof, with the hidden positions listed in ANY order *)
+Theorem C19_nisp2_hidden_responses_masked :
+  forall CS msgs c1 c2 pk bases ck U ds p ds',
+  Forall bits_top ds ->
+  nisp2_gen CS msgs c1 c2 pk bases ck U ds = Ok (p, ds') ->
+  (321 <= lm CS + MASK)%Z -> (0 < n2_chal p < 2 ^ 256)%Z ->
+  length (n2_d p) = length U /\
+  forall k, (k < length U)%nat ->
+    (2 ^ 64 <= nth k (n2_d p) 0 / n2_chal p - nth (N.to_nat (nth k U 0%N)) msgs 1)%Z.
+Proof. exact nisp2_hidden_responses_masked. Qed.
+Check (C19_nisp2_hidden_responses_masked :
+  forall CS msgs c1 c2 pk bases ck U ds p ds',
+  Forall bits_top ds ->
+  nisp2_gen CS msgs c1 c2 pk bases ck U ds = Ok (p, ds') ->
+  (321 <= lm CS + MASK)%Z -> (0 < n2_chal p < 2 ^ 256)%Z ->
+  length (n2_d p) = length U /\
+  forall k, (k < length U)%nat ->
+    (2 ^ 64 <= nth k (n2_d p) 0 / n2_chal p - nth (N.to_nat (nth k U 0%N)) msgs 1)%Z).
+Print Assumptions C19_nisp2_hidden_responses_masked.
